@@ -22,11 +22,11 @@ Space(problem, node_cap=20000, instances=None)
     (init_status 'dontcare' also when a *bounded* numeric fluent has no initial value, as in C01)
     .nodes  number of distinct (state, instance) successor evaluations;  .capped  True once node_cap was exceeded
     .taint  dict reason -> count of don't-care judgements met;  .tainted  bool
-plans(problem_or_space, k, max_plans=None, node_cap=20000) -> PlanSet
-    all valid plans of length <= k, shortest first, deterministic order.
+plans(problem_or_space, k, max_plans=None, node_cap=20000, max_paths=300000) -> PlanSet
+    all valid plans of length <= k, shortest first, deterministic order (max_paths bounds the number of paths visited).
     .plans  list of FoundPlan(.idx tuple of instance indexes, .steps [(action,args)], .sids state ids s0..sn, .states)
-    .complete  True iff exhaustive (node cap not hit, max_plans not hit);  .tainted / .taint as above;  .space
-guided(space, k, allowed, accept=None, memo=True) -> (FoundPlan | None, complete: bool)
+    .complete  True iff exhaustive (node cap, max_plans and max_paths not hit);  .tainted / .taint as above;  .space
+guided(space, k, allowed, accept=None, memo=True, max_paths=300000) -> (FoundPlan | None, complete: bool)
     depth-first search for one valid plan of length <= k in which step number n may only use the instances returned by
     `allowed(tag, n) -> iterable of (instance index, next tag)`; `tag` is an opaque hashable search annotation
     (start: allowed is first called with tag=None); `accept(tag)` says whether a plan may end with that annotation.
@@ -187,7 +187,7 @@ class PlanSet:
         return self.space.taint
 
 
-def plans(problem_or_space, k, max_plans=None, node_cap=20000):
+def plans(problem_or_space, k, max_plans=None, node_cap=20000, max_paths=300000):
     sp = problem_or_space if isinstance(problem_or_space, Space) else Space(problem_or_space, node_cap=node_cap)
     out = PlanSet(sp)
     if sp.init_status != "ok":
@@ -217,10 +217,15 @@ def plans(problem_or_space, k, max_plans=None, node_cap=20000):
         return res
 
     # iterative deepening so that plans come out shortest first; all caches are shared between the rounds
+    visited = 0
     for length in range(0, k + 1):
         stack = [((), (sp.s0,))]
         while stack:
             idx, sids = stack.pop()
+            visited += 1
+            if visited > max_paths:  # the number of *paths* is not bounded by node_cap (which counts distinct successors)
+                out.cut = True
+                return out
             d = len(idx)
             if d == length:
                 if sp.end_ok(sids) is True:
@@ -241,14 +246,18 @@ def plans(problem_or_space, k, max_plans=None, node_cap=20000):
     return out
 
 
-def guided(space, k, allowed, accept=None, memo=True):
+def guided(space, k, allowed, accept=None, memo=True, max_paths=300000):
     sp = space
     if sp.init_status != "ok":
         return None, not sp.capped
     use_memo = memo and not sp.has_traj
     dead = set()
+    budget = [max_paths]
 
     def rec(idx, sids, tag, n):
+        budget[0] -= 1
+        if budget[0] < 0:
+            return None
         sid = sids[-1]
         if (accept is None or accept(tag)) and sp.end_ok(sids) is True:
             return FoundPlan(sp, idx, sids)
@@ -270,7 +279,7 @@ def guided(space, k, allowed, accept=None, memo=True):
         return None
 
     found = rec((), (sp.s0,), None, 0)
-    return found, not sp.capped
+    return found, not sp.capped and budget[0] >= 0
 
 
 def exec_steps(problem, steps):
